@@ -25,7 +25,14 @@ def import_custom(name: str) -> str:
         str:  The stripped name
     """
     module_name, stripped_name = name.split(':')
-    importlib.import_module(module_name)
+
+    try:
+        importlib.import_module(module_name)
+    except ImportError as error:
+        raise ValueError(
+            f'invalid custom name `{name}`, cannot import `{module_name}`'
+        ) from error
+
     return stripped_name
 
 
